@@ -199,7 +199,7 @@ def check_base(acc, tag, ast, tier):
         acc.samples.append({"text": short(text, 200), "ids": len(IDS), "transformations": ["extra-kwarg", "rename", "decl-order", "kwarg-order", "cond-values", "omitted", "salt"]})
 
 
-TWIN_SALTS = [("p\x0cq", "p\x0c q"), ("p\rq", "p\r q"), ("p\u2028q", "p\x85q"), ("http://a/x", "http://a/y"), ("x//a", "x//b"), ("S", "s"), ("s ", "s"), ("é", "e\u0301"), ("a  b", "a b")]
+TWIN_SALTS = [("p\x0cq", "p\x0c q"), ("p\rq", "p\r q"), ("p\u2028q", "p\x85q"), ("http://a/x", "http://a/y"), ("x//a", "x//b"), ("S", "s"), ("s ", "s"), ("é", "e\u0301"), ("a  b", "a b"), ("pricing'", "pricing"), ("'p'", "p"), ('"p"', "p"), ("'", ""), ("home page", "homepage")]
 
 
 def _work(units):
